@@ -27,7 +27,7 @@
 From Coq Require Import List NArith Bool.
 From RopeVerif.Lib Require Import Text.
 From RopeVerif.C15 Require Import Syntax Scoping RopeScopes Fragment Theorems.
-From RopeVerif.C20 Require Import Split Complete CompleteProofs SplitProofs Witnesses Theorems.
+From RopeVerif.C20 Require Import Split Complete CompleteProofs SplitProofs EraseProofs Witnesses Theorems.
 Import ListNotations.
 
 (* The scope walk of _undotted_completions finds a name exactly when CPython resolves it from that scope:
@@ -144,6 +144,55 @@ Theorem C20_starting_offset_partial :
 Proof. exact split_identifier_prefix. Qed.
 Print Assumptions C20_starting_offset_partial.
 
+(* STARTING OFFSET after a blank (all texts): if the character before the cursor is white space and the last
+   non-blank character before it on the line is not a dot, nothing is being typed - no expression, empty prefix,
+   insertion at the cursor - whatever precedes.  (Before repo commit faeb634 the previous word lost its last
+   letter to a phantom expression: C20_split_after_space_fixed.) *)
+Theorem C20_starting_offset_after_blank :
+  forall (kws : list text) (pre post raw : text) (c : N),
+    is_space c = true ->
+    oc_is (N.eqb ch_dot) (hd_error (fst (last_non_space (c :: rev pre) (hd_error post)))) = false ->
+    split_in kws (pre ++ c :: post) raw (tlen pre + 1) = Some ([], [], (tlen pre + 1)%N).
+Proof. exact split_after_blank. Qed.
+Print Assumptions C20_starting_offset_after_blank.
+
+(* STARTING OFFSET, one-level dotted prefixes [v.w|] (PARTIAL: longer chains, calls and subscripts as receivers
+   are covered by the correspondence and the oracle only).  If the text before the cursor is a word v that is not
+   a keyword and is not the word "from", a dot, and a possibly empty word w - ANY word, also one spelled like a
+   keyword, since repo commit 2b4039e -, and v is preceded as in C20_starting_offset_partial, then the expression
+   to complete is exactly v - what precedes the dot -, the text to be replaced is exactly w and starts right
+   after the dot. *)
+Theorem C20_starting_offset_dotted_partial :
+  forall (kws : list text) (pre v w post raw : text),
+    v <> [] -> forallb is_id_char v = true -> is_kw kws v = false ->
+    forallb is_id_char w = true ->
+    ends_from (rev v ++ rev pre) = false ->
+    word_boundary_before (rev pre) (last (pre ++ v ++ ch_dot :: w ++ post) 0%N) = true ->
+    split_in kws (pre ++ v ++ ch_dot :: w ++ post) raw (tlen pre + tlen v + 1 + tlen w)
+    = Some (slice raw (tlen pre) (tlen pre + tlen v),
+            slice raw (tlen pre + tlen v + 1) (tlen pre + tlen v + 1 + tlen w),
+            (tlen pre + tlen v + 1)%N).
+Proof. exact split_dotted_prefix. Qed.
+Print Assumptions C20_starting_offset_dotted_partial.
+
+(* "x = os.is|": the attribute prefix is spelled like the keyword is *)
+Example C20_starting_offset_dotted_inhabited :
+  let kws := [[105; 115]; [102; 111; 114]]%N in
+  let pre := [120; 32; 61; 32]%N in let v := [111; 115]%N in let w := [105; 115]%N in let post := [10]%N in
+  is_kw kws v = false /\ is_kw kws w = true /\ ends_from (rev v ++ rev pre) = false
+  /\ word_boundary_before (rev pre) (last (pre ++ v ++ ch_dot :: w ++ post) 0%N) = true
+  /\ split_in kws (pre ++ v ++ ch_dot :: w ++ post) (pre ++ v ++ ch_dot :: w ++ post) 9 = Some (v, w, 7%N).
+Proof. exact split_dotted_example. Qed.
+Print Assumptions C20_starting_offset_dotted_inhabited.
+
+(* "abc |" and "a.b |" give nothing to complete, "a. |" still completes the attributes of a *)
+Example C20_starting_offset_after_blank_inhabited :
+  split_in [[105; 102]]%N [97; 98; 99; 32]%N [97; 98; 99; 32]%N 4 = Some ([], [], 4%N)
+  /\ split_in [[105; 102]]%N [97; 46; 98; 32]%N [97; 46; 98; 32]%N 4 = Some ([], [], 4%N)
+  /\ split_in [[105; 102]]%N [97; 46; 32]%N [97; 46; 32]%N 3 = Some ([97%N], [], 3%N).
+Proof. exact split_after_blank_example. Qed.
+Print Assumptions C20_starting_offset_after_blank_inhabited.
+
 (* DEFINITION LINE (PARTIAL).  Full strength would be
        C20_definition_line : statically_determined p occ -> definition_line p occ = spec_binding_line p occ
    (the line of the statement that binds the name, read off the syntax).  Proved: the discipline of the names
@@ -167,6 +216,26 @@ Theorem C20_definition_line_definition_partial :
     entry_line (pre ++ (x, k, Pay (Some l0) a) :: post) x = Some l0.
 Proof. exact entry_line_definition. Qed.
 Print Assumptions C20_definition_line_definition_partial.
+
+(* COHERENCE of the two trees the model walks: the tree of l-events (definition lines) erases to C15's rope_tree -
+   a path addresses a scope in one iff in the other, with the same events in the same order once the payload is
+   dropped - and the kind of table entry the l-state machine ends with is C15's [entry].  So [definition_line] and
+   [defined_after] read the line of exactly the entry that [gnames] / [rope_lookup] found. *)
+Theorem C20_definition_tree_coherent :
+  forall (p : program) (q : list nat),
+    match lscope_at (ltree p) q, scope_at (rope_tree p) q with
+    | Some ls, Some rs => map strip (llevs ls) = revs rs
+    | None, None => True
+    | _, _ => False
+    end.
+Proof. exact ltree_paths. Qed.
+Print Assumptions C20_definition_tree_coherent.
+
+Theorem C20_entry_kind_coherent :
+  forall (evs : levents) (x : ident),
+    option_map state_kind (lstate_from None evs x) = entry (map strip evs) x.
+Proof. exact lstate_entry. Qed.
+Print Assumptions C20_entry_kind_coherent.
 
 (* ---- non-vacuity *)
 Example C20_demo :
@@ -195,11 +264,6 @@ Print Assumptions C20_starting_offset_inhabited.
 
 (* ---- refutations: the faithful model does NOT satisfy the property on these inputs; each is an open finding
         replayed against the real library on every run (findings.d/C20.json) *)
-Theorem C20_split_after_space_refuted :
-  split_in kws2 [97; 98; 99; 32]%N [97; 98; 99; 32]%N 4 = Some ([97; 98]%N, [], 4%N).
-Proof. exact split_after_space_refuted. Qed.
-Print Assumptions C20_split_after_space_refuted.
-
 Theorem C20_later_import_refuted :
   in_fragment_C15 w_later_import = true
   /\ In (t_os, PImported) (completions world_later_import 2 [] false)
@@ -211,7 +275,24 @@ Print Assumptions C20_later_import_refuted.
 Theorem C20_definition_line_unknown_refuted :
   in_fragment_C15 w_line_unknown = true
   /\ definition_line world_line_unknown [0%nat] 2%N = None
-  /\ definition_line world_line_unknown [0%nat] 3%N = None
-  /\ (exists ss, sscope_at (spec_tree 6 w_line_unknown) [0%nat] = Some ss /\ In 2%N (sbound ss) /\ In 3%N (sbound ss)).
+  /\ (exists ss, sscope_at (spec_tree 6 w_line_unknown) [0%nat] = Some ss /\ In 2%N (sbound ss)).
 Proof. exact definition_line_unknown_refuted. Qed.
 Print Assumptions C20_definition_line_unknown_refuted.
+
+(* ---- fixed defects: the witnesses of three former [_refuted] theorems, now positive examples of the repaired
+        code and model (repo commits faeb634, 2b4039e, 5d25e3b); their inputs are replayed from corpus/C20 *)
+Example C20_split_after_space_fixed :
+  split_in kws2 [97; 98; 99; 32]%N [97; 98; 99; 32]%N 4 = Some ([], [], 4%N).
+Proof. exact split_after_space_fixed. Qed.
+Print Assumptions C20_split_after_space_fixed.
+
+Example C20_dotted_keyword_prefix_fixed :
+  split_in [[105; 115]]%N [115; 46; 105; 115]%N [115; 46; 105; 115]%N 4 = Some ([115%N], [105; 115]%N, 2%N)
+  /\ split_in [[105; 115]]%N [115; 46; 105; 120]%N [115; 46; 105; 120]%N 4 = Some ([115%N], [105; 120]%N, 2%N).
+Proof. exact dotted_keyword_prefix_fixed. Qed.
+Print Assumptions C20_dotted_keyword_prefix_fixed.
+
+Example C20_definition_line_annotation_fixed :
+  definition_line world_line_unknown [0%nat] 3%N = Some 4%N.
+Proof. exact definition_line_annotation_fixed. Qed.
+Print Assumptions C20_definition_line_annotation_fixed.
